@@ -153,7 +153,6 @@ structure Proxy where
   live : Bool := false                      -- `run_mode == LIVE` (set at job preparation, lost on restart)
   timers : Bool := false                    -- `try_timers` exist (created at the first preparation, saved in the DB)
   wjp : Bool := false                       -- `waiting_on_job_prep` (released by its queue, job not yet prepared)
-  manual : Bool := false                    -- `is_manual_submit` (set by `cylc trigger`, cleared at hand-over to the job runner)
   deriving Repr, Inhabited
 
 structure Hist where                        -- a removed instance as recorded in the DB
@@ -453,7 +452,7 @@ def Proxy.isReadyToRun (x : Proxy) : Bool :=
 
 /-- `queue_if_ready` -/
 def queueIfReady (s : State) (x : Proxy) : State :=
-  if !x.queued && !x.runahead && !x.manual && x.isReadyToRun then (s.put (x.reset (queued := some true))).push x else s
+  if !x.queued && !x.runahead && x.isReadyToRun then (s.put (x.reset (queued := some true))).push x else s
 
 /-- `hold_active_task` on a pooled proxy -/
 def holdActive (s : State) (x : Proxy) : State :=
@@ -518,15 +517,14 @@ def prepSubmit (s : State) (k : Int × String) : State :=
   | some x =>
     let y := if x.status == .preparing then x
       else { (x.reset (status := some .preparing)) with submitNum := x.submitNum + 1 }
-    let y := { y with wjp := false, live := true, timers := true, manual := false }
+    let y := { y with wjp := false, live := true, timers := true }
     { (s.put y) with launched := s.launched ++ [(y.pt, y.name, y.submitNum)] }
 
 def dedupKeys : List (Int × String) → List (Int × String)
   | [] => []
   | k :: ks => if ks.contains k then dedupKeys ks else k :: dedupKeys ks
 
-/-- `release_tasks_to_run`, not stopping, not paused: the manually triggered tasks (`tasks_to_trigger_now`: they
-wait on job preparation) and `set(released + pre_prep_tasks)` go to job submission -/
+/-- `release_tasks_to_run` (no manual triggers): `set(released + pre_prep_tasks)` goes to job submission -/
 def releaseAndSubmit (s : State) : State :=
   let preprep := (s.pool.filter (·.wjp)).map (·.key)
   let r := releaseQueued s
@@ -535,60 +533,6 @@ def releaseAndSubmit (s : State) : State :=
   if todo.isEmpty then s else
   let s := todo.foldl prepSubmit s
   { s with schedUpd := true }
-
-/-- `release_tasks_to_run` while paused (not stopping): no queue release; the manually triggered tasks and every
-proxy waiting on job preparation go to job submission -/
-def submitWjp (s : State) : State :=
-  let todo := (s.pool.filter (·.wjp)).map (·.key)
-  if todo.isEmpty then s else
-  let s := todo.foldl prepSubmit s
-  { s with schedUpd := true }
-
-/-! ### Manual trigger (`cylc trigger`) of pooled group-start tasks -/
-
-/-- `IndepQueueManager.push_task_if_limited`: `any(queue.push_task_if_limited(itask, active) ...)` - the first queue
-(dict order) that has reached its limit AND lists the task name takes the task; returns whether one did -/
-def pushIfLimited (k : Int × String) (active : List String) : List LQ → List LQ × Bool
-  | [] => ([], false)
-  | q :: rest =>
-    if q.limit != 0 && nActive active q.members ≥ q.limit && q.members.contains k.2 then
-      ({ q with deque := q.deque ++ [k] } :: rest, true)
-    else
-      let r := pushIfLimited k active rest
-      (q :: r.1, r.2)
-
-/-- `TaskPool.queue_or_trigger` on a pooled proxy: manual-submit flag, back to `waiting`; a task that is not queued
-is queued if its queue is full, else it is to run now (`waiting_on_job_prep`, `tasks_to_trigger_now`); a task that
-is queued already is taken out of its queue to run now, whatever the limit -/
-def queueOrTrigger (s : State) (x : Proxy) : State :=
-  let y := ({ x with manual := true }).reset (status := some .waiting)
-  let s := s.put y
-  if !y.queued then
-    let r := pushIfLimited (y.pt, y.name) (countActive s) s.qs
-    if r.2 then { s with qs := r.1 }.put (y.reset (queued := some true))
-    else s.put { y with wjp := true }
-  else if s.qs.any (fun q => q.deque.contains (y.pt, y.name)) then
-    (s.unqueue y).put { (y.reset (queued := some false)) with wjp := true }
-  else s
-
-def Pre.setSatisfied (p : Pre) : Pre := { p with atoms := p.atoms.map fun a => (a.1, true) }
-
-/-- `_force_trigger_tasks` for a group that consists of ONE pooled task (no other triggered task is a trigger
-parent or child of it), default flow: a live task (preparing / submitted / running) is left alone; any other gets
-all prerequisites satisfied and is queued or triggered; then `release_runahead_tasks` -/
-def triggerOne (g : Graph) (s : State) (k : Int × String) : State :=
-  let s := match s.get? k.1 k.2 with
-    | none => s
-    | some x =>
-      if x.status == .preparing || x.status.isActive then s
-      else
-        let x := { x with pre := x.pre.map Pre.setSatisfied, retryWait := false }
-        queueOrTrigger (s.put x) x
-  (releaseRunahead g s).1
-
-/-- `cylc trigger` of pooled tasks that are pairwise unconnected (every task is its own group), in the order in
-which the command walks its groups -/
-def triggerTasks (g : Graph) (s : State) (ids : List (Int × String)) : State := ids.foldl (triggerOne g) s
 
 /-! ### Removal and spawning on outputs -/
 
@@ -825,7 +769,6 @@ inductive Op where
   | pause
   | resume
   | restart
-  | trigger (ids : List (Int × String))   -- `cylc trigger` of pooled, pairwise unconnected tasks, default flow
   deriving Repr
 
 def clearOp (s : State) : State := { s with launched := [], polls := [], ghosts := [], db := none }
@@ -881,7 +824,7 @@ def mainLoop (g : Graph) (s : State) : State :=
     else s
   if canStop s then { s with stop := s.stopMode } else
   let s := sweepQueue s
-  let s := if s.stopMode.isNone then (if s.paused then submitWjp s else releaseAndSubmit s) else s
+  let s := if s.stopMode.isNone && !s.paused then releaseAndSubmit s else s
   let s := processQueue g s
   finishLoop g s
 
@@ -934,8 +877,8 @@ def restart (g : Graph) (s : State) : State :=
     let keepOut := status == .running || status == .failed || status == .succeeded
     let final := status == .failed || status == .succeeded || status == .expired
     { x with status := status, submitNum := sn, done := if keepOut then x.done else [],
-             queued := false, runahead := !final && !x.manual, retryWait := false, live := false, wjp := false,
-             upd := (x.status == .preparing) || final || x.manual }
+             queued := false, runahead := !final, retryWait := false, live := false, wjp := false,
+             upd := (x.status == .preparing) || final }
   -- stop point: DB `stopcp`, else flow.cylc, else the final point
   let cfgStop : Option Int := match s.dbStopCp with | some p => some p | none => g.cfgStop
   let pool := s.pool.map restore
@@ -970,7 +913,6 @@ def step (g : Graph) (s : State) (op : Op) : State :=
   | .pause => { s with paused := true }
   | .resume => { s with paused := false }
   | .restart => restart g s
-  | .trigger ids => triggerTasks g s ids
 
 def init (g : Graph) : State :=
   let s := loadFromPoint g
